@@ -108,13 +108,25 @@ def junk_bytes(seed):
                  for _ in range(rng.randrange(1, 80)))
 
 
+ELSEWHERE = '_reports'
+ELSEWHERE_SIG = 'done-entry-not-read-back:output_dir-is-not-root/name'
+
+
+def outdir_of(tspec, root):
+    '''Most tasks write into <output-root>/<name>; some (report tasks) have
+    their output directory elsewhere.'''
+    if tspec.get('elsewhere'):
+        return os.path.join(root, ELSEWHERE, tspec['name'])
+    return os.path.join(root, tspec['name'])
+
+
 def gen_entry(tspec, version, status, root):
     '''The environment entry of a task at a given version (deterministic).'''
     import numpy as np
     rng = random.Random(driver.mix(tspec['payload_seed'], version))
     ent = {'status': mods()['task'].TaskStatus[status]}
     if tspec['has_outdir']:
-        ent['output_dir'] = os.path.join(root, tspec['name'])
+        ent['output_dir'] = outdir_of(tspec, root)
     ent['version'] = version
     ent['start_clock'] = 1000.0 + version
     ent['end_clock'] = 1000.5 + version
@@ -139,6 +151,7 @@ def gen_history(rng, fam):
         tasks.append({'name': name, 'payload_seed': rng.randrange(10 ** 9),
                       'nkeys': rng.randrange(0, 5), 'size': rng.choice((0, 4, 40)),
                       'has_outdir': rng.random() < 0.85,
+                      'elsewhere': rng.random() < 0.06,
                       'big': rng.choice((0, 0, 0, 0, 9000))})
     faulty = fam.get('faults', True)
     ops = []
@@ -238,6 +251,7 @@ def _run_history(scn, sim, res, root):
     tasks = scn['tasks']
     for tsk in tasks:
         os.makedirs(os.path.join(root, tsk['name']), exist_ok=True)
+        os.makedirs(outdir_of(tsk, root), exist_ok=True)
     # reference model: per task, what a reader MUST return (('must', entry or
     # None)) or MAY return (('may', [entries])), entry = (version, status)
     known_blobs = [dict() for _ in tasks]    # blob bytes -> (version, status)
@@ -249,7 +263,7 @@ def _run_history(scn, sim, res, root):
     foreign = set()      # ... or with somebody else's environment
 
     def path_of(i):
-        return os.path.join(root, tasks[i]['name'], FILENAME)
+        return os.path.join(outdir_of(tasks[i], root), FILENAME)
 
     def disk_state(i):
         path = path_of(i)
@@ -454,7 +468,7 @@ def _run_history(scn, sim, res, root):
                             root, status_enum, logical)
         elif kind == 'whole':
             _whole_roundtrip(scn, sim, res, opno, op, root)
-        if res.violations:
+        if any(v[1] != ELSEWHERE_SIG for v in res.violations):
             break
     if any(op.get('plan') for op in scn['ops']):
         sim.nontrivial = True
@@ -518,6 +532,15 @@ def _judge_read(scn, res, opno, got, states, unreadable, written, root,
                       'entry-from-%s-%s-file' % (state[0], state[1]),
                       {'op': opno, 'task': name, 'disk': state[:2],
                        'entry': repr(dict(got[name]))[:200]})
+            continue
+        if state[0] == 'intact' and tsk.get('elsewhere') and \
+                tsk['has_outdir'] and state[1][1] == 'DONE' and not have:
+            # written to the task's output directory, looked for under
+            # <output-root>/<name>: never found again
+            _fact(res, 'judged:output-dir-elsewhere')
+            _viol(res, 'done-entry-lost', ELSEWHERE_SIG,
+                  {'op': opno, 'task': name,
+                   'output_dir': os.path.relpath(outdir_of(tsk, root), root)})
             continue
         if state[0] == 'intact':
             version, status = state[1]
